@@ -179,6 +179,7 @@ var _ = vl.Less
 func vJSON(c *Heap[int]) containers.VJSON {
 	return containers.VJSON{C: c, ToJSON: c.ToJSON, FromJSON: c.FromJSON,
 		Marshal: func() ([]byte, error) { return json.Marshal(c) },
+		Unmarshal: func(data []byte) error { return json.Unmarshal(data, c) },
 		Inv:     func() { VInv(c) },
 		Step:    func() { c.Push(v.Int("sx")); VInv(c) },
 		Fresh:   func() containers.VJSON { return vJSON(NewWith[int](vl.Cmp)) },
